@@ -63,7 +63,8 @@ def gen_members(rng, nmax=60):
             m["longname"] = True
             m["visor_longlink"] = rng.random() < 0.3
         elif long_mode < 0.2:
-            name = "p" * rng.randrange(20, 120) + "/" + "s" * rng.randrange(1, 90) + base
+            # ustar prefix of any length up to the field's 155 bytes (its tail overlaps the visor offset field)
+            name = "p" * rng.choice([rng.randrange(20, 120), rng.randrange(120, 156), 151, 152, 153, 154, 155]) + "/" + "s" * rng.randrange(1, 85) + base
             m["longname"] = True
             m["prefix"] = True
         if name in names or name.rstrip("/") in names:
@@ -80,6 +81,7 @@ def gen_members(rng, nmax=60):
             size = rng.choice([1, 511, 512, 513, 4096, rng.randrange(1, 5000), rng.randrange(1, 300_000) if rng.random() < 0.15 else rng.randrange(1, 20000)])
             m["data"] = hashlib.shake_128(f"{j}/{size}/{rng.getrandbits(32)}".encode()).digest(size)
             m["text_pgs"] = rng.choice([0, 0, 3])
+            m["word2"] = rng.choice([0, 0, 1, 0x1000, rng.getrandbits(32)])
             m["fixup_pgs"] = rng.choice([0, 0, 1])
         if kind in ("file", "std", "empty") and not name.endswith("/"):
             # regular files may carry the old-style NUL type flag or the 'contiguous file' flag
